@@ -59,9 +59,9 @@ theorem LiveInv_init (cfg : Cfg) (hw : WellCfg cfg) : LiveInv (init cfg) := by
     · intro _; rw [hlive, hss, hnq, hpl]; omega
 
 theorem LiveInv_step {s s' : St} {t : Tid} (hf : NoFaults s.cfg) (hw : WellCfg s.cfg) (hS : SafeInv s) (hL : LInv s)
-    (hV : LiveInv s) (h : step s t = some s') : LiveInv s' := by
+    (hV : LiveInv s) (hM : MidI s) (h : step s t = some s') : LiveInv s' := by
   cases t with
-  | c => exact LiveInv_stepC hS hL hV hw h
+  | c => exact LiveInv_stepC hS hL hV hM hw h
   | f => exact LiveInv_stepF hS hV h
   | r => exact LiveInv_stepR hL hV h
   | w wid => exact LiveInv_stepW hf hw hL hV h
